@@ -67,6 +67,8 @@ def labels(case, R, stats):
         stats.label("zero_column")
     if case["m"] == R.rank:
         stats.label("no_redundancy")
+    if case.get("offset"):
+        stats.label("large_abs_terms")
 
 
 def nontrivial(case):
